@@ -1,5 +1,5 @@
 # replay of a bounded stand-in violation (C16): re-run native/c16_states.py
 import sys
-print('fock pure=False: run(prog, modes=[1, 2]).state: index i of the returned state is not the i-th requested mode (quadratures [0.134, 0.158, 0.134, 0.158] vs [-0.021, -0.033, -0.021, -0.033] from the full state)')
+print('fock n=3 pure=False: wigner(0) on a 9 x 6 grid has shape (9, 6), the other representations return (6, 9)')
 print('REPLAY-VIOLATION')
 sys.exit(1)
